@@ -99,7 +99,9 @@ class Run(object):
             while self.seen_d < len(d):
                 self.ev.append({'e': 'dpiece', 'n': len(d[self.seen_d])})
                 self.seen_d += 1
-            if not self.seen_deof and self.dep.reader._eof:
+            # the end of the data connection as the SERVER made it (a connection the client closed itself - e.g. its
+            # own read timer - is not the server's end of file)
+            if not self.seen_deof and self.dep.reader._eof and self.dep.server_closed:
                 self.seen_deof = True
                 self.ev.append({'e': 'deof'})
         if self.ctl is not None:
@@ -233,8 +235,11 @@ class Run(object):
 
         net.listen(HOST_IP, 21, lambda ep: Ctl())
         net.listen(HOST_IP, DATA_PORT, lambda ep: Data())
-        pool = ConnectionPool(resolver=net.resolver(), connection_factory=net.connection_factory,
-                              ssl_connection_factory=net.connection_factory)
+        cf = net.connection_factory
+        if self.sc.get('read_timeout'):
+            import functools
+            cf = functools.partial(net.connection_factory, timeout=self.sc['read_timeout'])
+        pool = ConnectionPool(resolver=net.resolver(), connection_factory=cf, ssl_connection_factory=cf)
 
         class RecControlStream(ControlStream):
             @asyncio.coroutine
@@ -285,7 +290,9 @@ class Run(object):
         signal.setitimer(signal.ITIMER_VIRTUAL, self.watchdog_s)
         try:
             try:
-                kind, val = vloop.run(go, self.env_step, before_cleanup=self._freeze)
+                # with timers in play (a read time-out) the server's scripted moves come first, then time passes
+                kind, val = vloop.run(go, self.env_step, before_cleanup=self._freeze,
+                                      env_before_timer=bool(self.sc.get('read_timeout')))
             except Livelock:
                 kind, val = 'livelock', None
         finally:
